@@ -2,7 +2,7 @@
 import Driver.Proto
 import Driver.RunH
 import Lace.Model.Debugger
-open Lace Lace.Driver Lace.Dbg
+open Lace Lace.Driver Lace.Dbg Lace.Cmd
 
 namespace Lace.Driver
 
